@@ -78,6 +78,10 @@ func (e *Env) evalModItems(exprs []ast.Expr) []modItem {
 					}
 					out = append(out, modItem{kind: "star", ref: ref, src: src})
 					continue
+				case "fs":
+					// the whole ghost file system
+					out = append(out, modItem{kind: "sub", ref: sx("fld", ghostRoot, "10"), src: src})
+					continue
 				case "elems":
 					v := e.eval(call.Args[0])
 					if v.K == KRef && v.T != nil && derefType(v.T) != nil {
